@@ -268,12 +268,12 @@ def _carrier_branch(func: ast.AST) -> Optional[ast.If]:
     return None
 
 
-def _lookahead_predicate(func: ast.AST, branch: ast.AST):
+def _lookahead_predicate(func: ast.AST, branch: ast.AST, lookahead_name: Optional[str] = None):
     """ canonical form of 'the upcoming hit ids start with one of the double-transporter cases':
         (normalised comparisons, what the look-ahead list is built from, what is iterated) - locals alpha-renamed,
         `a == b` ordered, loop vs any() both reduced to the per-case comparison """
     cfg = CFG(func)
-    lookahead = func.args.args[2].arg if len(func.args.args) > 2 else "lookahead"  # type: ignore[attr-defined]
+    lookahead = lookahead_name or (func.args.args[2].arg if len(func.args.args) > 2 else "lookahead")  # type: ignore[attr-defined]
     comps = set()
     sources = set()
     iterated = set()
@@ -336,6 +336,22 @@ def r14_3(ctx: Ctx) -> None:
         if branch is None:
             raise AnalysisError(f"{name}: carrier protein branch not found")
         preds[name] = _lookahead_predicate(func, branch)
+        if not preds[name][0]:
+            # the predicate may live in a helper that is handed the look-ahead (a search loop with an early return
+            # cannot be inlined): read it there
+            look = func.args.args[2].arg if len(func.args.args) > 2 else "lookahead"
+            for call in calls(branch):
+                helper_name = call_name(call).split(".")[-1]
+                if not helper_name.startswith("_") or not any(isinstance(a, ast.Name) and a.id == look for a in call.args):
+                    continue
+                for q, helper in ctx.repo.functions(MI):
+                    if q.split(".")[-1] == helper_name and helper.args.args:
+                        position = [i for i, a in enumerate(call.args) if isinstance(a, ast.Name) and a.id == look][0]
+                        params = [a.arg for a in helper.args.args if a.arg not in ("self", "cls")]
+                        if position < len(params):
+                            preds[name] = _lookahead_predicate(helper, helper, lookahead_name=params[position])
+                            if params[position] != look:
+                                preds[name] = (preds[name][0], tuple(s_.replace(params[position], look) for s_ in preds[name][1]), preds[name][2])
     same = preds["ensure_suitable"] == preds["add_component"] and bool(preds["ensure_suitable"][0])
     ctx.ob("R14.3", MI, val, "Module", "double-transporter predicate", same,
            "the validator and the updater decide 'second carrier protein allowed' with the same look-ahead predicate "
